@@ -5,8 +5,82 @@ import (
 	"iter"
 	"reflect"
 	"slices"
+	"sort"
 	"time"
 )
+
+// ---- the stash -------------------------------------------------------------------
+//
+// When fake time advances, several timers (time.Timer channels, context
+// deadlines) may fire at the same instant. A goroutine blocked in a select on
+// two of them is woken by whichever the runtime fires first, which depends on
+// the runtime's timer heap (shared with real-time timers of the process) and
+// is therefore not a function of the tape. The blocking Select detects such
+// ties after it re-acquired the token (it polls the other receive cases),
+// lets the tape choose among the simultaneously ready cases and "un-receives"
+// the values it consumed from the others into this stash. Every receive that
+// goes through simrt consults the stash first, so a stashed value behaves as
+// if it were still at the head of its channel.
+
+type stashed struct {
+	v reflect.Value
+}
+
+func chanKey(c reflect.Value) uintptr { return c.Pointer() }
+
+func (s *Sim) stashPut(c reflect.Value, v reflect.Value) {
+	if s.stash == nil {
+		s.stash = map[uintptr][]stashed{}
+	}
+	k := chanKey(c)
+	s.stash[k] = append(s.stash[k], stashed{v})
+	s.stashN++
+}
+
+func (s *Sim) stashTake(c reflect.Value) (reflect.Value, bool) {
+	if s.stashN == 0 {
+		return reflect.Value{}, false
+	}
+	k := chanKey(c)
+	q := s.stash[k]
+	if len(q) == 0 {
+		return reflect.Value{}, false
+	}
+	v := q[0]
+	if len(q) == 1 {
+		delete(s.stash, k)
+	} else {
+		s.stash[k] = q[1:]
+	}
+	s.stashN--
+	return v.v, true
+}
+
+func (s *Sim) stashDrop(c reflect.Value) {
+	if s.stashN == 0 {
+		return
+	}
+	k := chanKey(c)
+	s.stashN -= len(s.stash[k])
+	delete(s.stash, k)
+}
+
+// TimerStop / TimerReset replace (*time.Timer).Stop/Reset in instrumented
+// code: like the runtime (Go 1.23+ timer channels), no tick of the old timer
+// setting may be received after they return, so a stashed tick is discarded.
+func TimerStop(t *time.Timer) bool {
+	if s := S; s != nil && s.stashN > 0 {
+		s.stashDrop(reflect.ValueOf(t.C))
+	}
+	return t.Stop()
+}
+
+func TimerReset(t *time.Timer, d time.Duration) bool {
+	if s := S; s != nil && s.stashN > 0 {
+		s.stashDrop(reflect.ValueOf(t.C))
+	}
+	return t.Reset(d)
+}
 
 // Recv1 is `<-c` in expression position.
 func Recv1[T any](site uint32, c <-chan T) T { v, _ := Recv(site, c); return v }
@@ -14,11 +88,18 @@ func Recv1[T any](site uint32, c <-chan T) T { v, _ := Recv(site, c); return v }
 // Recv is `v, ok := <-c`: non-blocking attempt while holding the token, else
 // release the token and block for real.
 func Recv[T any](site uint32, c <-chan T) (T, bool) {
-	if S == nil {
+	s := S
+	if s == nil {
 		v, ok := <-c
 		return v, ok
 	}
 	Yield(site)
+	if s.stashN > 0 {
+		if rv, ok := s.stashTake(reflect.ValueOf(c)); ok {
+			v, _ := rv.Interface().(T)
+			return v, true
+		}
+	}
 	select {
 	case v, ok := <-c:
 		return v, ok
@@ -68,6 +149,23 @@ func RecvVal[T any](c <-chan T, v reflect.Value) T {
 
 var defCase = reflect.SelectCase{Dir: reflect.SelectDefault}
 
+// poll tries one case without blocking (stash first for receives).
+func (s *Sim) poll(c reflect.SelectCase) (reflect.Value, bool, bool) {
+	if !c.Chan.IsValid() || c.Chan.IsNil() {
+		return reflect.Value{}, false, false
+	}
+	if c.Dir == reflect.SelectRecv && s.stashN > 0 {
+		if rv, ok := s.stashTake(c.Chan); ok {
+			return rv, true, true
+		}
+	}
+	idx, rv, ok := reflect.Select([]reflect.SelectCase{c, defCase})
+	if idx != 0 {
+		return reflect.Value{}, false, false
+	}
+	return rv, ok, true
+}
+
 // Select replaces a select statement: the ready case is chosen by the tape
 // (polling order is a tape-chosen rotation), and only if none is ready and
 // there is no default does the task block in reflect.Select with the token
@@ -94,17 +192,9 @@ func Select(site uint32, hasDefault bool, cases ...Case) (int, reflect.Value, bo
 	if n > 1 {
 		start = s.Tape.Choose(Sched, n)
 	}
-	var two [2]reflect.SelectCase
-	two[1] = defCase
 	for k := 0; k < n; k++ {
 		i := (start + k) % n
-		ch := cases[i].c.Chan
-		if !ch.IsValid() || ch.IsNil() {
-			continue
-		}
-		two[0] = cases[i].c
-		idx, rv, ok := reflect.Select(two[:])
-		if idx == 0 {
+		if rv, ok, ready := s.poll(cases[i].c); ready {
 			return i, rv, ok
 		}
 	}
@@ -119,7 +209,37 @@ func Select(site uint32, hasDefault bool, cases ...Case) (int, reflect.Value, bo
 	var rv reflect.Value
 	var ok bool
 	Block(site, "select", func() { idx, rv, ok = reflect.Select(cs) })
-	return idx, rv, ok
+	// Token held again. Tie detection: other receive cases that became ready
+	// at the same instant (see the stash comment above).
+	if cs[idx].Dir != reflect.SelectRecv || n == 1 {
+		return idx, rv, ok
+	}
+	type got struct {
+		i  int
+		rv reflect.Value
+		ok bool
+	}
+	ties := []got{{idx, rv, ok}}
+	for i := range cs {
+		if i == idx || cs[i].Dir != reflect.SelectRecv {
+			continue
+		}
+		if v, vok, ready := s.poll(cs[i]); ready {
+			ties = append(ties, got{i, v, vok})
+		}
+	}
+	if len(ties) == 1 {
+		return idx, rv, ok
+	}
+	sort.Slice(ties, func(a, b int) bool { return ties[a].i < ties[b].i })
+	pick := s.Tape.Choose(Sched, len(ties))
+	for k, g := range ties {
+		if k != pick && g.ok {
+			s.stashPut(cs[g.i].Chan, g.rv) // un-receive; closed channels stay ready by themselves
+		}
+	}
+	s.out.Probes["simrt:select-tie"]++
+	return ties[pick].i, ties[pick].rv, ties[pick].ok
 }
 
 // RangeChan is `for v := range c`.
@@ -180,10 +300,6 @@ func MapSeqFunc[M ~map[K]V, K comparable, V any](m M, key func(K) string) iter.S
 		}
 	}
 }
-
-// After is a token-aware time.After for harness code: it must be consumed
-// with Recv/Select.
-func After(d time.Duration) <-chan time.Time { return time.After(d) }
 
 // WaitUntil blocks the calling task until cond() holds, polling on a fine
 // simulated-time grid (harness use only).
